@@ -85,6 +85,68 @@ _int_math("floor", lambda a, b, r: r == a, nargs=1)
 _int_math("round_", lambda a, b, r: r == a, nargs=1)
 
 
+# ---- float operands: floats are abstract (DESIGN 2.3), so the contract is on the SHAPE of the
+# ---- computation: plus/minus/times/modulo with a float operand compute
+# ---- float(Decimal(str(num)) <op> Decimal(str(other))) -- decimal arithmetic on the decimal text of
+# ---- both operands, not binary float arithmetic ("agree with exact ... decimal arithmetic")
+
+def _decimal_shape(term, op, a_term, b_term):
+    """term == flt_of_ref(Decimal.<op>(Decimal(str)(str(..a..)), Decimal(str)(str(..b..))))"""
+    def name(t):
+        return t.decl().name() if z3.is_app(t) else ""
+    def mentions(t, x):
+        seen, stack = set(), [t]
+        while stack:
+            y = stack.pop()
+            if y.get_id() in seen:
+                continue
+            seen.add(y.get_id())
+            if y.eq(x):
+                return True
+            stack.extend(y.children())
+        return False
+    if name(term) != "flt_of_ref" or name(term.arg(0)) != "opq$Decimal." + op:
+        return False
+    l, r_ = term.arg(0).arg(0), term.arg(0).arg(1)
+    return name(l) == "opq$Decimal(str)" and name(r_) == "opq$Decimal(str)" and mentions(l, a_term) and not mentions(l, b_term) and mentions(r_, b_term) and not mentions(r_, a_term)
+
+
+def _float_math(fname, op):
+    for kinds in (("int", "flt"), ("flt", "int"), ("flt", "flt")):
+        def _mk(kinds):
+            @contract(f"{MATH}:{fname}", prop="C25", name=f"{fname}[{kinds[0]} {op} {kinds[1]}: decimal arithmetic]")
+            def fm(c):
+                std_globals(c)
+                a = c.int("num") if kinds[0] == "int" else c.flt("num")
+                b = c.int("other") if kinds[1] == "int" else c.flt("other")
+                c.call(a, b)
+                c.ensures("computed-as-float(Decimal(str(num))-op-Decimal(str(other)))", lambda r: z3.BoolVal(isinstance(r.value, VFlt) and _decimal_shape(r.value.t, op, a.t, b.t)))
+                c.raises("FilterArgumentError")   # decimal arithmetic on non-finite operands / a zero modulus
+                c.assume_note("floats, Decimal construction and Decimal arithmetic are uninterpreted: the obligation is the shape of the computation, not its numeric value")
+                c.crosscheck(off=True)
+                c.replay("code", code=REPLAY_FLOAT_MATH)
+        _mk(kinds)
+
+
+for _f, _op in (("plus", "Add"), ("minus", "Sub"), ("times", "Mult"), ("modulo", "Mod")):
+    _float_math(_f, _op)
+
+REPLAY_FLOAT_MATH = r'''
+def run(m):
+    from decimal import Decimal
+    from liquid import Environment
+    env = Environment()
+    bad = []
+    for a, b in [(1, 0.9), (0.1, 0.2), (3, 0.1), (1.1, 3), (0.3, 0.1), (10, 0.3), (2.2, 1.1)]:
+        for f, op in (("plus", lambda x, y: x + y), ("minus", lambda x, y: x - y), ("times", lambda x, y: x * y), ("modulo", lambda x, y: x % y)):
+            want = str(float(op(Decimal(str(a)), Decimal(str(b)))))
+            got = env.from_string("{{ a | " + f + ": b }}").render(a=a, b=b)
+            if got != want:
+                bad.append((f, a, b, got, want))
+    return {"violated": bool(bad), "observed": bad[:4], "witness": "binary-float-arithmetic"}
+'''
+
+
 for _name in ("divided_by", "modulo"):
     def _mk(name):
         @contract(f"{MATH}:{name}", prop="C25", name=f"{name}[zero divisor]")
